@@ -38,11 +38,11 @@ theorem fs_C_invariant (n₀ fc₀ : ℝ) (ops : List (FsOp ℝ)) :
     `PathLossFreeSpace(n, fc)` with the current parameters and flag. -/
 theorem fs_history_independent (n₀ fc₀ : ℝ) (ops : List (FsOp ℝ)) :
     let s := fsRun (fsInit n₀ fc₀) ops
-    s = { fsInit s.n s.fc with small := s.small } := by
+    s = { fsInit s.n s.fc with small := s.small, shadow := s.shadow } := by
   intro s
   have h : FsInv s := fsRun_inv (fsInit_inv n₀ fc₀) ops
   cases hs : s with
-  | mk n C fc small =>
+  | mk n C fc small shadow =>
     rw [hs] at h
     simp only [fsInit]
     congr
@@ -393,6 +393,52 @@ theorem oh_rejected_call_can_be_dropped (s : OhState ℝ) (o : OhOp ℝ) (e : Py
     ohRun s (o :: rest) = ohRun s rest := by
   have := (ohStep_rejected s o e h).2
   simp only [ohRun, List.foldl_cons, this]
+
+/-! ## public calls that are not setters leave the configuration alone -/
+
+/-- Tie: in the current source the plot helper writes every flag it touches
+    back from a saved copy OF THAT SAME FLAG, inside a `finally` block (pattern
+    extracted by the translator; swapping the two flags on restore, or restoring
+    outside `finally`, makes this `rfl` fail). -/
+theorem plot_helper_restores_flags_in_source :
+    Gen.plotRestoresOwn = true ∧ Gen.plotRestoresInFinally = true := ⟨rfl, rfl⟩
+
+/-- R7: drawing the curve — whatever flags are forced meanwhile, whether the
+    path-loss computation raises (too-small distance, flag off) or the axes
+    object raises — leaves every model object exactly as it was: exponent,
+    constant, frequency, heights, area type AND both policy flags. -/
+theorem plot_leaves_object_unchanged :
+    (∀ (s : GenState ℝ) ds ax, (s.plot ds ax).1 = s) ∧
+    (∀ (s : Ps7State ℝ) ds ax, (s.plot ds ax).1 = s) ∧
+    (∀ (s : OhState ℝ) ds ax, (s.plot ds ax).1 = s) :=
+  ⟨fun s _ _ => by cases s; rfl, fun s _ _ => by cases s; rfl, fun s _ _ => by cases s; rfl⟩
+
+/-- … hence a history with any number of plot calls interleaved ends in the same
+    object as the history without them (free space; the calls are identities). -/
+theorem plot_calls_can_be_dropped (s : GenState ℝ) (ds : List ℝ) (ax : Bool) (ops : List (FsOp ℝ)) :
+    fsRun (s.plot ds ax).1 ops = fsRun s ops := by
+  rw [plot_leaves_object_unchanged.1]
+
+/-- what the plot call reports with the flags of the current source (shadowing
+    forced off, small-distance policy untouched): RuntimeError exactly when the
+    policy flag is off and some distance is too small; otherwise the axes' own
+    exception, if any. -/
+theorem plot_outcome (s : GenState ℝ) (ds : List ℝ) (ax : Bool)
+    (hsrc : Gen.plotForcedSmall = none) :
+    ((∃ d ∈ ds, s.detDb d < 0) → s.small = false → (s.plot ds ax).2 = some .RuntimeError) ∧
+    (s.small = true → (s.plot ds ax).2 = if ax then some .ValueError else none) := by
+  have hfl : (plotFlags s.small s.shadow).1 = s.small := by simp [plotFlags, hsrc]
+  have hp : (s.plot ds ax).2 = plotOutcome (arrayDb (plotFlags s.small s.shadow).1 s.detDb ds) ax := rfl
+  rw [hp, hfl]
+  constructor
+  · rintro ⟨d, hd, hneg⟩ hs
+    have : arrayDb false s.detDb ds = .error .RuntimeError :=
+      policyArray_raises ⟨s.detDb d, List.mem_map.2 ⟨d, hd, rfl⟩, hneg⟩
+    rw [hs, this]; rfl
+  · intro hs
+    rw [hs]
+    unfold arrayDb
+    rw [policyArray_clamps]; rfl
 
 /-! ## non-vacuity -/
 
